@@ -254,6 +254,10 @@ func implC15(line string) string {
 		return withVM(func(vm *otto.Otto) string { return implCall(vm, f) })
 	case "reent":
 		return withVM(func(vm *otto.Otto) string { return implReent(vm, f) })
+	case "arith":
+		return withVM(func(vm *otto.Otto) string { return implArith(vm, f) })
+	case "reentcopy":
+		return implReentCopy(f[1])
 	case "api":
 		return withVM(func(vm *otto.Otto) string { return implAPI(vm, f[1]) })
 	case "callx":
@@ -909,16 +913,29 @@ func genCalls(c *h.Ctx) {
 const probeXSrc = `
 var count=0, log=[];
 function tagOf(t){ if(t===glob)return "global"; if(t===obj)return "self"; if(t instanceof probe)return "instance"; return "boxed:"+obs(t.valueOf()) }
-function mk(b){ return function(){ count++; var t=tagOf(this); log.push(t);
+var thrownVals = { refProto: ReferenceError.prototype, errProto: Error.prototype, rangeErr: new RangeError('m'), emptyErr: new Error(), plainObj: ({a:1}),
+  num: 5, "null": null, undef: undefined, bool: true, str: 's', fn: function f(){}, arr: [1,2], created: Object.create(TypeError.prototype),
+  custom: new (function(){ function E(){this.message='mm'}; E.prototype=new Error(); E.prototype.name='MyErr'; return E }())() };
+var curExit = "";
+function mk(b){ curExit = b; return function(){ count++; var t=tagOf(this); log.push(t);
+  if(b.indexOf("throw:")===0) throw thrownVals[b.slice(6)];
   if(b==="throwTypeError") throw new TypeError("t:"+t+":"+count);
   if(b==="throwOnce" && count===1) throw new Error("t:"+t+":"+count);
   if(b==="throwValue") throw "s:"+t;
   var a=[]; for(var i=0;i<arguments.length;i++)a.push(obs(arguments[i])); return t+"|"+a.join(";") } }
 function langRun(f){ try { var r=f(); return (typeof r==="object"||typeof r==="function") ? "ret:object" : "ret:"+r }
-  catch(e){ return (e instanceof Error) ? "throw:"+e.name+":"+e.message : "throw:value:"+String(e) } }
+  catch(e){ if(curExit.indexOf("throw:")===0) return (e===thrownVals[curExit.slice(6)]) ? "threw:"+String(e).split(" ").join("_") : "threw-other";
+    return (e instanceof Error) ? "throw:"+e.name+":"+e.message : "throw:value:"+String(e) } }
 `
 
-func outcomeTok(v otto.Value, err error) string {
+func outcomeTok(v otto.Value, err error) string { return outcomeTokX(v, err, false) }
+
+// outcomeTokX: with anyValue the callee throws an arbitrary value; what can be compared through the API is
+// whether an error came back and its text (= ToString of the thrown value).
+func outcomeTokX(v otto.Value, err error, anyValue bool) string {
+	if err != nil && anyValue {
+		return "threw:" + strings.ReplaceAll(err.Error(), " ", "_")
+	}
 	if err != nil {
 		if oe, ok := err.(*otto.Error); ok {
 			msg := oe.Error()
@@ -943,6 +960,7 @@ func implCallX(vm *otto.Otto, f []string) string {
 		return errTok(err)
 	}
 	kind, member, thisTok := f[1], f[2] == "m", f[3]
+	anyV := strings.HasPrefix(f[4], "throw:")
 	var args []interface{}
 	var names []string
 	for i, a := range f[5:] {
@@ -963,6 +981,7 @@ func implCallX(vm *otto.Otto, f []string) string {
 	if callList != "" {
 		callList = "," + callList
 	}
+	outcomeTokV := func(v otto.Value, err error) string { return outcomeTokX(v, err, anyV) }
 	state := func() string {
 		v, err := vm.Run(`count + "/" + log.join(",")`)
 		if err != nil {
@@ -997,18 +1016,18 @@ func implCallX(vm *otto.Otto, f []string) string {
 			vm.Set("T", g)
 			expr = "probe.call(T" + callList + ")"
 		}
-		api = outcomeTok(fn.Call(this, args...)) + "/" + state()
+		api = outcomeTokV(fn.Call(this, args...)) + "/" + state()
 		lg = lang(expr)
 	case "ocall":
 		ov, _ := vm.Get("obj")
-		api = outcomeTok(ov.Object().Call("probe", args...)) + "/" + state()
+		api = outcomeTokV(ov.Object().Call("probe", args...)) + "/" + state()
 		lg = lang("obj.probe(" + argList + ")")
 	case "gcall":
-		api = outcomeTok(vm.Call(src, nil, args...)) + "/" + state()
+		api = outcomeTokV(vm.Call(src, nil, args...)) + "/" + state()
 		lg = lang(src + "(" + argList + ")")
 	case "gcallT":
 		g := parseGo(thisTok)
-		api = outcomeTok(vm.Call(src, g, args...)) + "/" + state()
+		api = outcomeTokV(vm.Call(src, g, args...)) + "/" + state()
 		vm.Set("T", g)
 		lg = lang("(" + src + ").call(T" + callList + ")")
 	case "gnew":
@@ -1016,7 +1035,7 @@ func implCallX(vm *otto.Otto, f []string) string {
 		if thisTok != "-" {
 			this = parseGo(thisTok)
 		}
-		api = outcomeTok(vm.Call("new "+src, this, args...)) + "/" + state()
+		api = outcomeTokV(vm.Call("new "+src, this, args...)) + "/" + state()
 		lg = lang("new " + src + "(" + argList + ")")
 	default:
 		return "bad-op"
@@ -1024,7 +1043,8 @@ func implCallX(vm *otto.Otto, f []string) string {
 	return api + "#" + lg
 }
 
-var exits = []string{"ret", "throwTypeError", "throwOnce", "throwValue"}
+var exits = []string{"ret", "throwTypeError", "throwOnce", "throwValue", "throw:refProto", "throw:errProto", "throw:rangeErr", "throw:emptyErr", "throw:plainObj",
+	"throw:num", "throw:null", "throw:undef", "throw:bool", "throw:str", "throw:fn", "throw:arr", "throw:created", "throw:custom"}
 
 func genCallsX(c *h.Ctx) {
 	r := c.Rng
@@ -1303,6 +1323,34 @@ func implAPI(vm *otto.Otto, c string) string {
 			return apiErrTok(err)
 		}
 		return apiTok(string(b))
+	case "runThrowToStringHostThrows":
+		vm.Set("hostFn", func(call otto.FunctionCall) otto.Value { panic(vm.MakeTypeError("x")) })
+		_, err := vm.Run("throw {toString: hostFn}")
+		if err == nil {
+			return apiTok("no-error")
+		}
+		return apiErrTok(err)
+	case "setZeroObject", "setPtrZeroObject":
+		var zo interface{} = otto.Object{}
+		if c == "setPtrZeroObject" {
+			zo = &otto.Object{}
+		}
+		if err := vm.Set("zo", zo); err != nil {
+			return apiErrTok(err)
+		}
+		v, err := vm.Run("typeof zo")
+		if err != nil {
+			return apiErrTok(err)
+		}
+		return apiTok(v.String())
+	case "exportStringObject", "exportNumberObject", "exportFunction", "exportDate":
+		src := map[string]string{"exportStringObject": `new String("ab")`, "exportNumberObject": "new Number(5)", "exportFunction": "(function(){})", "exportDate": "new Date(0)"}[c]
+		v, _ := vm.Run(src)
+		e, err := v.Export()
+		if err != nil {
+			return apiErrTok(err)
+		}
+		return apiTok(treeTok(e))
 	case "callTwoStatements":
 		return callLog("f(); g", nil)
 	case "callTwoStatementsThis":
@@ -1315,7 +1363,8 @@ func implAPI(vm *otto.Otto, c string) string {
 
 var apiCases = []string{"runThrowToStringThrows", "runThrowUnconvertible", "badIsNaN", "badToString", "badToInteger", "badToFloat", "badToBoolean", "badString",
 	"badClass", "callerLocationNoScript", "callerLocationScript", "setNilObject", "toValueNilObject", "argNilObject", "toValueNilValue", "marshalFunction",
-	"marshalObjectWithFunction", "marshalUndefined", "callTwoStatements", "callTwoStatementsThis", "callExprStatement"}
+	"marshalObjectWithFunction", "marshalUndefined", "callTwoStatements", "callTwoStatementsThis", "callExprStatement",
+	"runThrowToStringHostThrows", "setZeroObject", "setPtrZeroObject", "exportStringObject", "exportNumberObject", "exportFunction", "exportDate"}
 
 func genReentAPI(c *h.Ctx) {
 	for _, form := range []string{"ottoCall", "ottoCallThis", "ottoRun", "ottoEval", "valueCall", "objectCall"} {
@@ -1329,6 +1378,116 @@ func genReentAPI(c *h.Ctx) {
 	}
 	for _, a := range apiCases {
 		c.Add("api "+a, "api")
+	}
+}
+
+// ---------------------------------------------------------------- arithmetic on Go values, Copy()
+
+var arithJS = map[string]string{"add": "+", "sub": "-", "mul": "*", "div": "/", "rem": "%"}
+
+// implArith: arith <op> <g1> <g2>: vm.Set both, Run("a op b"), read back with Export / ToFloat / ToString.
+func implArith(vm *otto.Otto, f []string) string {
+	if err := vm.Set("a", parseGo(f[2])); err != nil {
+		return errTok(err)
+	}
+	if err := vm.Set("b", parseGo(f[3])); err != nil {
+		return errTok(err)
+	}
+	v, err := vm.Run("a " + arithJS[f[1]] + " b")
+	if err != nil {
+		return errTok(err)
+	}
+	e, _ := v.Export()
+	x, _ := v.ToFloat()
+	str := "unmodelled"
+	if math.IsNaN(x) || math.IsInf(x, 0) || x == 0 || (x == math.Trunc(x) && math.Abs(x) < 1<<53) {
+		sv, _ := v.ToString()
+		str = h.BytesTok(sv)
+	}
+	return goTok(e) + "/" + h.F64Hex(x) + "/" + str
+}
+
+// implReentCopy: a host function set on a template runs on a Copy(); FunctionCall.Otto must be the copy.
+func implReentCopy(form string) string {
+	tmpl := otto.New()
+	tmpl.Set("host", func(call otto.FunctionCall) otto.Value {
+		o := call.Otto
+		var v otto.Value
+		var err error
+		switch form {
+		case "ottoCall":
+			v, err = o.Call("helper", nil, 1)
+		case "ottoCallThis":
+			v, err = o.Call("helper", 5, 1)
+		case "ottoRun":
+			v, err = o.Run("helper(1)")
+		case "ottoEval":
+			v, err = o.Eval("helper(1)")
+		case "valueCall":
+			var fn otto.Value
+			fn, _ = o.Get("helper")
+			v, err = fn.Call(otto.UndefinedValue(), 1)
+		case "objectCall":
+			var ob *otto.Object
+			if ob, err = o.Object("this"); err == nil {
+				v, err = ob.Call("helper", 1)
+			}
+		}
+		if err != nil {
+			r, _ := otto.ToValue("error:" + strings.ReplaceAll(err.Error(), " ", "_"))
+			return r
+		}
+		return v
+	})
+	if _, err := tmpl.Run(`var helper = function(){ return "template" }; function caller(){ return host() }`); err != nil {
+		return errTok(err)
+	}
+	cp := tmpl.Copy()
+	if _, err := cp.Run(`helper = function(){ return "copy" }`); err != nil {
+		return errTok(err)
+	}
+	v, err := cp.Run("caller()")
+	if err != nil {
+		return errTok(err)
+	}
+	return v.String()
+}
+
+func genArithCopy(c *h.Ctx, base []string, bd []float64) {
+	r := c.Rng
+	ops := []string{"add", "sub", "mul", "div", "rem"}
+	// boundary operands of every numeric kind (no strings: concatenation and ToNumber of strings are C05/C09's)
+	small := []string{"nil", "b:0", "b:1", "i32:0", "i32:-5", "i32:5", "i32:-1", "i32:2147483647", "i32:-2147483648", "i32:46341", "i32:65536",
+		"i8:-128", "i8:0", "i16:-1", "i64:0", "i64:-1", "i64:9007199254740993", "i64:-9223372036854775808", "int:0", "int:3", "u8:255", "u16:0", "u32:4294967295",
+		"u64:18446744073709551615", "u64:0", "uint:7", "f64:8000000000000000", "f64:0000000000000000", "f64:7ff8000000000001", "f64:7ff0000000000000",
+		"f64:fff0000000000000", "f64:3ff8000000000000", "f64:c004000000000000", "f32:3fb99999a0000000", "f32:8000000000000000", "N(i32:0)", "N(i32:-7)", "P(i32:0)", "N(f32:bff0000000000000)", "Z(int)"}
+	for _, op := range ops {
+		for _, a := range small {
+			for _, b := range small {
+				c.Add("arith "+op+" "+a+" "+b, "arith:"+op)
+			}
+		}
+	}
+	var nums []string
+	for _, t := range base {
+		if !strings.HasPrefix(t, "s:") {
+			nums = append(nums, t)
+		}
+	}
+	for i := 0; i < c.N(6000, 400000); i++ {
+		pick := func() string {
+			for {
+				t := randScalar(r, nums, bd)
+				if !strings.HasPrefix(t, "s:") {
+					return wrapScalar(r, t)
+				}
+			}
+		}
+		op := ops[r.Intn(len(ops))]
+		c.Add("arith "+op+" "+pick()+" "+pick(), "arith:"+op, "arith:random")
+	}
+	for _, form := range []string{"ottoCall", "ottoCallThis", "ottoRun", "ottoEval", "valueCall", "objectCall"} {
+		c.Add("reentcopy "+form, "reentcopy")
 	}
 }
 
@@ -1531,5 +1690,6 @@ func genC15(c *h.Ctx) {
 	genCalls(c)
 	genCallsX(c)
 	genReentAPI(c)
+	genArithCopy(c, base, bd)
 	genHeaps(c, base, bd)
 }
